@@ -160,4 +160,3 @@ package ext
 //@   modifies s._all, mem
 //@   top-ensures sameArray(s.B, old(s.B)) && off(s.B) >= off(old(s.B)) && off(s.B) + len(s.B) == off(old(s.B)) + len(old(s.B))
 //@   top-ensures changedOnly(arr(old(s.B)), off(old(s.B)), off(s.B))
-//@   top-ensures s.HLen - old(s.HLen) == off(s.B) - off(old(s.B))
